@@ -54,7 +54,7 @@ claim("C09",
   "sequential histories plus ONE preemption of a Flush in its retry loop; callback mode and pooled streams are not in this harness (pool: see C15); timers are modelled as expired, a select takes ready non-timer cases first",
   "DESIGN.md 15.3/C09")
 claim("C10",
-  "Session model histories: stream state only moves forward (monitor after every step); after a local Close the stream is closed, absent from the session's stream table and stays absent (a close notification must not re-create it), Flush fails with ErrStreamClosed and drops its data, reads fail; after delivery the peer is not open any more and reads report the end after draining; repeated Close returns nil; no active stream is left on either side after wind-down. Callback mode (H_C20_inline, H_C20_window): Close from inside OnData (after consuming everything or one byte), the peer's Close arriving while OnData runs or at any synchronisation point of the callback goroutine: state final, exactly one close report, peer notified - with KNOWN FINDINGS F-CBCLOSE (Close inside OnData: no report, peer not notified), F-CLOSEOVERTAKE, F-ZOMBIE. Both ends closing at once (H_SM_closewindow): the client's Close stopped in front of every synchronisation operation while the server closes (notifications in either order) or server data arrives: both end up closed, nothing stays registered, census holds. One genuine defect found and fixed (F-CLOSERACE).",
+  "Session model histories: stream state only moves forward (monitor after every step); after a local Close the stream is closed, absent from the session's stream table and stays absent (a close notification must not re-create it), Flush fails with ErrStreamClosed and drops its data, reads fail; after delivery the peer is not open any more and reads report the end after draining; repeated Close returns nil; no active stream is left on either side after wind-down. Callback mode (H_C20_inline, H_C20_window): Close from inside OnData (after consuming everything or one byte), the peer's Close arriving while OnData runs or at any synchronisation point of the callback goroutine: state final, exactly one close report, peer notified - with KNOWN FINDINGS F-CLOSEOVERTAKE, F-ZOMBIE (F-CBCLOSE - Close while OnData runs: no report, peer not notified - was found here and is fixed). Both ends closing at once (H_SM_closewindow): the client's Close stopped in front of every synchronisation operation while the server closes (notifications in either order) or server data arrives: both end up closed, nothing stays registered, census holds. Two genuine defects found and fixed (F-CLOSERACE, F-CBCLOSE).",
   "sequential histories and single-preemption windows; simultaneous Close calls on both ends from concurrent goroutines are NOT covered beyond those; known findings are matched by exact assertion id / harness history predicate",
   "DESIGN.md 15.3/C10")
 claim("C13",
@@ -88,7 +88,7 @@ CLAIM_EXTRA = {
  "C07": " Two streams at once (H_C07_parallel, conflicting-access check): one operation on each of two streams of a session (client flush through shared memory or the socket fallback, server read, client close, server answer, server close; all 25 pairs, three degrees of memory exhaustion) touch no pointer-like Go-heap location or map in conflict without a common lock or atomic access.",
  "C13": " Handshake phase (H_C13_handshake, goroutines as coroutines over the socket model of C12): the real newSession of a server or of a memfd client reads an arbitrary byte string (every byte symbolic; up to 8 bytes, i.e. one header, or a well-formed protocol 2 / protocol 3 header sequence followed by up to 9 arbitrary body bytes; whole or in two pieces) and then end of file: nothing panics and the call returns. One more genuine defect found and fixed (F-HSLEN: short share-memory event bodies crashed the handshake goroutine).",
  "C05": " Stalled send loop (H_C05_slowsend, goroutines as coroutines with the time model): the control connection is busy and sendCh is full while a producer's wake-up waits in the slow path of wakeUpPeer for longer than any time-out; then the connection gets free and the real Session.send loop writes what was queued: every producer returns, nothing is stranded at quiescence, a later element is announced too.",
- "C14": " Callback waiting for data (H_C14_cbwait, goroutines as coroutines): a callback-mode stream whose OnData waits in a read for bytes that never come when the peer dies / the session is closed / the connection fails: the teardown (which waits for the callback goroutine) returns, the parked read fails, census clean - with KNOWN FINDING F-CBCLOSE (C14 view: no close callback for a stream closed while its OnData is in progress).",
+ "C14": " Callback waiting for data (H_C14_cbwait, goroutines as coroutines): a callback-mode stream whose OnData waits in a read for bytes that never come when the peer dies / the session is closed / the connection fails: the teardown (which waits for the callback goroutine) returns, the parked read fails, census clean, exactly one close callback (the C14 view of F-CBCLOSE was found here; fixed).",
  "C19": " Listener (H_C19_listener, H_C19_listenwindow; real newListener/listenLoop/Accept/Close, streamWrapper.Close with every goroutine as a coroutine, stub raw listener and stub Server()): every stream surfaces exactly once, Accept fails after Close instead of hanging, a session ends exactly when the listener and all its connections let go, also when Listener.Close lands in front of any synchronisation operation of the connection intake (one genuine defect found and fixed: F-LNDROP). Full duplex (H_C19_duplex): one Read and one Write of the same adapter touch no pointer-like Go-heap location in conflict without a common lock or atomic access (conflicting-access check).",
 }
 claim("C20",
